@@ -1,7 +1,7 @@
 """C18 - displayed doctest source is faithful and re-parses to the same doctest.
 
 spec  : specs/DocParse.tla, second round (Deviation flag "Reparse"): after a
-        docstring of C01_Blocks has been labelled, grouped and packaged, its
+        docstring of C18_Blocks (C01_Blocks without the empty-line statement) has been labelled, grouped and packaged, its
         formatted source (Formatted: the source lines as the parts keep them -
         an unprefixed string line has become a "... " line - and the want
         lines, text dropped) is fed to the same labeller/grouper/packager
@@ -21,7 +21,7 @@ import warnings
 
 from . import common, parselib
 
-BOUNDS = {'quick': [('C01_Blocks', 3, 60000)], 'thorough': [('C01_Blocks', 3, None), ('C01_Blocks', 4, 250000)]}
+BOUNDS = {'quick': [('C18_Blocks', 3, 60000)], 'thorough': [('C18_Blocks', 3, None), ('C18_Blocks', 4, 250000)]}
 
 
 def _flat(parts):
@@ -169,12 +169,12 @@ def run(tier):
     parselib.self_check_templates()
     parselib._JOB['outcome_only_when_f11'] = True       # docstrings with the known finding F11 are the business of C13/C01
     parselib._JOB['skip_shapes'] = ('f9', 'f10')
-    out.rule = 'every docstring of <= N building blocks over C01_Blocks in DocParse.tla with the second (re-parse) round; replay of the finished docstrings (sampled where stated)'
+    out.rule = 'every docstring of <= N building blocks over C18_Blocks (= C01_Blocks without the empty-line statement) in DocParse.tla with the second (re-parse) round; replay of the finished docstrings (sampled where stated)'
     # spec level: the second round
     n = 3
-    res = common.run_tlc('MC_DocParse', parselib.cfg('C01_Blocks', n, parselib.INVS + ['ReparseSame'], deviation=('Reparse',)), timeout=2400)
+    res = common.run_tlc('MC_DocParse', parselib.cfg('C18_Blocks', n, parselib.INVS + ['ReparseSame'], deviation=('Reparse',)), timeout=2400)
     common.tlc_must_pass(res, 'DocParse reparse round')
-    out.add_tlc(res, 'exhaustive:reparse C01_Blocks<=%d' % n)
+    out.add_tlc(res, 'exhaustive:reparse C18_Blocks<=%d' % n)
     if res.violated:
         raise common.MachineryError('spec-level invariant %s violated on the unchanged spec:\n%s' % (res.violated, res.stdout[-3000:]))
     common.cleanup_scratch()
